@@ -1,7 +1,7 @@
 #!/usr/bin/env python3
 """usage: explain.py <replay dir>  -- show the rejected execution and the specification state where it got stuck"""
 import json, os, re, subprocess, sys, tempfile
-d = sys.argv[1]
+d = os.path.abspath(sys.argv[1])
 rej = [f for f in os.listdir(d) if f.startswith("rejected")][0]
 L = open(os.path.join(d, rej)).read().splitlines()
 n = int(sys.argv[2]) if len(sys.argv) > 2 else 14
@@ -12,11 +12,13 @@ for x in L[max(1, len(L) - n):]:
 cfg = tempfile.mktemp(suffix=".cfg")
 open(cfg, "w").write("SPECIFICATION TSpec\nCONSTANT RSets <- RSetsDef\nCHECK_DEADLOCK TRUE\n")
 tr = tempfile.mktemp(suffix=".ndjson"); open(tr, "w").write("\n".join(L) + "\n")
-env = dict(os.environ, TRACE=tr, CASES=os.path.join(d, "cases.ndjson"))
+env = dict(os.environ, JAVA_TOOL_OPTIONS="-Xss256m", TRACE=tr, CASES=os.path.join(d, "cases.ndjson"))
 md = tempfile.mkdtemp()
 p = subprocess.run(["tlc", "-workers", "1", "-metadir", md, "-config", cfg, "Trace_Scanner.tla"], cwd="/verif/spec", env=env,
                    stdout=subprocess.PIPE, stderr=subprocess.STDOUT, text=True, timeout=120)
 out = p.stdout
+m = re.search(r"Error: (?!Deadlock)(.{0,600})", out, flags=re.S)
+if m: print("TLC ERROR:", m.group(0)[:700])
 i = out.rfind("State ")
 st = out[i:]
 st = re.sub(r"/\\ (rs|opt|hist|files) = .*?(?=/\\ |\Z)", "", st, flags=re.S) if "--full" not in sys.argv else st
